@@ -306,6 +306,9 @@ type c11ByCase struct {
 	// Holders: how many never-cancelled executions are running (default 1); more than one are run with the
 	// processor count set to 2, i.e. more executions than processors
 	Holders int `json:"holders,omitempty"`
+	// Recompile: while the holder runs, the host compiles the shared spec again (unforced - nothing is replaced),
+	// as a host does that compiles a machine's spec for every message; the victim starts after that
+	Recompile bool `json:"recompile,omitempty"`
 }
 
 const loopSrc = `while (true) { _.ctx.Value("tick"); }
@@ -391,6 +394,14 @@ func c11Bystander(cs c11ByCase) (out [][2]string) {
 		select {
 		case <-hx.started:
 		case <-time.After(100 * time.Millisecond):
+		}
+	}
+	if cs.Recompile && spec != nil {
+		cdone := make(chan struct{})
+		go func() { defer close(cdone); vh.Trap(func() { spec.Compile(context.Background(), nil, false) }) }()
+		select {
+		case <-cdone:
+		case <-time.After(50 * time.Millisecond):
 		}
 	}
 	var vb context.Context
@@ -632,7 +643,7 @@ func C11(c *vh.Ctx) {
 	}
 	c.Bound("cancel_at_tick_max", K)
 	c.Bound("deadlines_ms", deadlines)
-	c.Rule("script shapes {while(true), counting for, unbounded recursion, array push, string concatenation, property read/write, nested calls in a loop, a loop in the toString of a thrown object, in a getter of the returned object, in the message getter of a thrown Error}, with and without a harness tick in the loop body, as action, as guard, and as action plus the guard of the branch that handles the action's failure x cancellation {context already cancelled, deadline already expired, cancel delivered at tick k for k=1..K (with and without a far deadline in the context's ancestry), real deadlines} x error routing {none, ActionErrorNode, ActionErrorBranches} x n in {1,2,4} concurrent executions with independent contexts; oracle: the walk returns (90 s horizon), the script makes no more than a (very large) number of ticks after its context is done, the result is the timeout error routed like any action error, and every goroutine started during the call is gone afterwards (10 s grace). Bystander family: while one execution keeps running under a context that is never cancelled, a second execution on the same interpreter (source text compiled by Exec itself, or one shared compiled program) or on the same compiled spec, whose context is already cancelled / already expired / cancelled at its second tick / expires after 5 ms, must stop while the first is still running (the first gives up after 10^7 ticks, which is then a violation); the same with five never-cancelled executions on two processors (more executions than processors). Exit-path family: executions that end by themselves on each of 18 exit paths (results of every kind, exceptions of every kind, a result or an emitted value whose getter throws, reference/syntax/type errors) through Exec (source, compiled) and Walk (action, guard), 1 or 3 in a row, under a context that stays alive (background, cancellable, far deadline): no goroutine started for them is alive afterwards (10 s grace) while the context lives, and ending the context afterwards is uneventful. 'Promptly' in milliseconds is not decided.")
+	c.Rule("script shapes {while(true), counting for, unbounded recursion, array push, string concatenation, property read/write, nested calls in a loop, a loop in the toString of a thrown object, in a getter of the returned object, in the message getter of a thrown Error}, with and without a harness tick in the loop body, as action, as guard, and as action plus the guard of the branch that handles the action's failure x cancellation {context already cancelled, deadline already expired, cancel delivered at tick k for k=1..K (with and without a far deadline in the context's ancestry), real deadlines} x error routing {none, ActionErrorNode, ActionErrorBranches} x n in {1,2,4} concurrent executions with independent contexts; oracle: the walk returns (90 s horizon), the script makes no more than a (very large) number of ticks after its context is done, the result is the timeout error routed like any action error, and every goroutine started during the call is gone afterwards (10 s grace). Bystander family: while one execution keeps running under a context that is never cancelled, a second execution on the same interpreter (source text compiled by Exec itself, or one shared compiled program) or on the same compiled spec, whose context is already cancelled / already expired / cancelled at its second tick / expires after 5 ms, must stop while the first is still running (the first gives up after 10^7 ticks, which is then a violation); the same with five never-cancelled executions on two processors (more executions than processors), and with the shared spec compiled again (unforced) by the host while the first execution runs. Exit-path family: executions that end by themselves on each of 18 exit paths (results of every kind, exceptions of every kind, a result or an emitted value whose getter throws, reference/syntax/type errors) through Exec (source, compiled) and Walk (action, guard), 1 or 3 in a row, under a context that stays alive (background, cancellable, far deadline): no goroutine started for them is alive afterwards (10 s grace) while the context lives, and ending the context afterwards is uneventful. 'Promptly' in milliseconds is not decided.")
 	var idx uint64
 	for _, exit := range c11ExitOrder {
 		for _, via := range []string{"exec-source", "exec-compiled", "walk-action", "walk-guard"} {
@@ -655,6 +666,12 @@ func C11(c *vh.Ctx) {
 			idx++
 			if c.Mine(idx) && !c.Expired() {
 				by(c11ByCase{Kind: kind, Victim: victim, Holders: 5})
+			}
+			if kind == "walk-shared-spec" {
+				idx++
+				if c.Mine(idx) && !c.Expired() {
+					by(c11ByCase{Kind: kind, Victim: victim, Recompile: true})
+				}
 			}
 		}
 	}
